@@ -54,7 +54,24 @@ def load_toolkit():
     spec = importlib.util.spec_from_file_location("gsm_shared_c19", os.path.join(TOOLKIT, "gsm_shared.py"))
     mod = importlib.util.module_from_spec(spec)
     spec.loader.exec_module(mod)
-    return mod.HoppingParams.fn2gsm_time
+    raw = mod.HoppingParams.fn2gsm_time
+    # the function is also what the hopping code calls for every burst: a transceiver with pseudo-random
+    # hopping resolves the same frame in between (whatever that leaves behind must not show)
+    try:
+        hp = mod.HoppingParams(5, 0, [(1000, 2000), (3000, 4000), (5000, 6000)])
+    except Exception:
+        hp = None
+    n = [0]
+
+    def fn2gsm_time(fn):
+        n[0] += 1
+        if hp is not None and n[0] % 2:
+            try:
+                hp.resolve(fn)
+            except Exception:
+                pass                      # the hopping code is C07's
+        return tuple(raw(fn))              # a tuple, a named tuple or anything else that unpacks into T1, T2, T3
+    return fn2gsm_time
 
 
 # ------------------------------------------------------------------ driver
